@@ -32,7 +32,8 @@ CHECKS["C04"] = dict(
        "and operands. The seven class spellings (quantifiers.py) are proved to have the text of the method spelling. "
        "The operand's category (atom or not: decides (?:P) vs P) and the repeatable flag the methods consult (a wrongly refused operand "
        "has no repetitions at all) are __infer_type's assumed contract: bounded stand-in B1 (category and flag clauses), run here and "
-       "reported as bounded; for literal-string operands both are decided completely by F7 (see C09).",
+       "reported as bounded; for literal-string operands both are decided completely by F7 (see C09), and every bracket text is "
+       "shown to be typed Class by F8 (same technique).",
   note=PROOF_NOTE + " Bounds below sre MAXREPEAT.",
   technique="contract-based deductive verification: AST->VC symbolic execution of the real methods, callee contracts, z3; tree equality via CPython's parser on placeholder texts",
   design_ref="DESIGN.md section 8 (C04), 3.3, Appendix B.1")
@@ -109,8 +110,9 @@ CHECKS["C02"] = dict(
   category="proof",
   text=COMB + "the emitted text parses - by CPython's own parser - to the same tree as the fully parenthesised reference, and the "
        "class form is textually the method form. No bound on operands or texts. The step 'the result again satisfies the class "
-       "invariant' is the contract of __infer_type, checked only by the bounded stand-in B1 (category clauses; ~270k one/two-step "
-       "expressions per hash seed); two known findings (numeric back-reference followed by a digit; a named capture duplicated by "
+       "invariant' is the contract of __infer_type, checked by the bounded stand-in B1 (category clauses; ~270k one/two-step "
+       "expressions per hash seed) and, for bracket texts (classes are atoms), decided completely by F8 (regular-language facts "
+       "about the real regexes of __infer_type, derivative engine); two known findings (numeric back-reference followed by a digit; a named capture duplicated by "
        "enclose) are listed in known_findings.json.",
   note=PROOF_NOTE + " Class forms with *args: arities <= 3 over the operand kinds of KIND_TAGS['varpre'].",
   technique="contract-based deductive verification (AST->VC symbolic execution, callee contracts, z3) with parse-tree equality via CPython's parser; bounded stand-in B1 for the assumed contract of __infer_type",
